@@ -327,11 +327,26 @@ def optional_matrix_descs(tier):
         out.append(desc("little", [packet("P", [scalar("c", 1), reserved(7), scalar("x", w, cond=("c", 1))])], name="optm_u%d_last" % w))
         out.append(desc("little", [packet("P", [scalar("c", 1), reserved(7), scalar("x", w, cond=("c", 0)), scalar("t", 16)])],
                         name="optm_u%d_mid" % w))
-    for e in (E8, E16, E24, E64):
+    for e in (E8, E16, E24, E64, EOPEN, ERNG):      # closed, open, with ranges
         out.append(desc("little", [e, packet("P", [scalar("c", 1), reserved(7), typedef("x", e["id"], cond=("c", 1))])],
                         name="optm_%s_last" % e["id"].lower()))
         out.append(desc("little", [e, packet("P", [scalar("c", 1), reserved(7), typedef("x", e["id"], cond=("c", 1)), scalar("t", 8)])],
                         name="optm_%s_mid" % e["id"].lower()))
+    return out
+
+
+def extent_position_descs(tier):
+    """size / count fields as wide as a native integer in the *middle* of a bit-field group (fields before and after
+    them in the same group), for arrays and payloads"""
+    out = []
+    for w in (8, 16, 32):
+        out.append(desc("little", [packet("P", [scalar("a", 4), count("x", w), scalar("b", 4), array("x", 16)])], name="ext_cnt%d_mid" % w))
+        out.append(desc("little", [packet("P", [scalar("a", 4), size("x", w), scalar("b", 4), array("x", 8), scalar("t", 8)])],
+                        name="ext_siz%d_mid" % w))
+        out.append(desc("little", [packet("P", [scalar("a", 3), size("_payload_", w), scalar("b", 5), payload(), scalar("t", 8)])],
+                        name="ext_plsiz%d_mid" % w))
+    out.append(desc("little", [US, packet("P", [scalar("a", 4), elementsize("x", 8), scalar("b", 4), array("x", "US", count=2)])],
+                    name="es_ext8_mid"))
     return out
 
 
@@ -509,6 +524,12 @@ def group_descs(tier):
                                packet("F", [group("G", [cons("k", "C"), cons("n", 2)])]),
                                packet("N", [scalar("h", 8), group("G")])], name="grp_matrix"))
     # (a group field may only constrain the group's own fields: E15 otherwise, so the inner bindings sit in the outer groups)
+    # identifiers reused across nesting levels: the inner use binds them (they become anonymous fixed fields), the
+    # outer group declares fields of the same names again, and the packet binds those
+    out.append(desc("little", [E8, groupdecl("Header", [scalar("tag", 8), typedef("kind", "E8")]),
+                               groupdecl("Frame", [group("Header", [cons("tag", 0x11), cons("kind", "A")]), scalar("tag", 8), typedef("kind", "E8")]),
+                               packet("Message", [group("Frame", [cons("tag", 0x22), cons("kind", "B")]), scalar("seq", 8)]),
+                               packet("Other", [group("Frame", [cons("tag", 0x33)])])], name="grp_nested_reuse"))
     out.append(desc("little", [E8, groupdecl("In", [typedef("k", "E8"), scalar("n", 8)]),
                                groupdecl("OutA", [scalar("q", 8), group("In", [cons("k", "A")])]),
                                groupdecl("OutB", [scalar("q", 8), group("In", [cons("k", "B")])]),
@@ -623,7 +644,7 @@ def syntax_descs(tier):
 def build(tier="quick"):
     ds = []
     for f in (bitfield_descs, enum_descs, array_descs, payload_descs, optional_descs, struct_descs, custom_descs,
-              inherit_descs, group_descs, chunk_descs, optional_matrix_descs, wide_chunk_descs):
+              inherit_descs, group_descs, chunk_descs, optional_matrix_descs, wide_chunk_descs, extent_position_descs):
         ds += f(tier)
     names = set()
     for d in ds:
